@@ -74,25 +74,36 @@ func check(c Case) (r pbt.Result) {
 	T := c.A.T()
 	whole, fin := simref.Run1(name, c.A.Cell, c.A.Inputs, append([]float64(nil), st0...))
 	bounds := append(append([]int{0}, c.Splits...), T)
-	seg := make([][]float64, len(desc.Outputs))
-	st := append([]float64(nil), st0...)
 	changed := false
+	// the split run; nudge (when given) may move the states carried over split number s by a few ulps
+	runSplit := func(nudge func(s int, st []float64)) ([][]float64, []float64) {
+		seg := make([][]float64, len(desc.Outputs))
+		st := append([]float64(nil), st0...)
+		for s := 0; s+1 < len(bounds); s++ {
+			a, b := bounds[s], bounds[s+1]
+			in := make([][]float64, len(c.A.Inputs))
+			for i := range in {
+				in[i] = c.A.Inputs[i][a:b]
+			}
+			var o [][]float64
+			prev := st
+			carried := append([]float64(nil), st...)
+			if nudge != nil && s > 0 {
+				nudge(s-1, carried)
+			}
+			o, st = simref.Run1(name, c.A.Cell, in, carried)
+			if s+2 < len(bounds) && simref.DiffBits("", prev, st) != "" {
+				changed = true
+			}
+			for k := range seg {
+				seg[k] = append(seg[k], o[k]...)
+			}
+		}
+		return seg, st
+	}
+	seg, st := runSplit(nil)
 	for s := 0; s+1 < len(bounds); s++ {
-		a, b := bounds[s], bounds[s+1]
-		in := make([][]float64, len(c.A.Inputs))
-		for i := range in {
-			in[i] = c.A.Inputs[i][a:b]
-		}
-		var o [][]float64
-		prev := st
-		o, st = simref.Run1(name, c.A.Cell, in, append([]float64(nil), st...))
-		if s+2 < len(bounds) && simref.DiffBits("", prev, st) != "" {
-			changed = true
-		}
-		for k := range seg {
-			seg[k] = append(seg[k], o[k]...)
-		}
-		if b-a == 1 {
+		if bounds[s+1]-bounds[s] == 1 {
 			r.Label("1-step-segment")
 		}
 	}
@@ -185,54 +196,98 @@ func check(c Case) (r pbt.Result) {
 			prevS = stor[t]
 		}
 	}
-	for k := range whole {
-		scale = maxAbs(whole[k])
-		tol := tolOut
-		if name == "StorageRouting" && desc.Outputs[k] == "storage" {
-			tol = tolState
+	compare := func(seg [][]float64, st []float64) (hit string, fail string) {
+		for k := range whole {
+			scale = maxAbs(whole[k])
+			tol := tolOut
+			if name == "StorageRouting" && desc.Outputs[k] == "storage" {
+				tol = tolState
+			}
+			for t := 0; t < T; t++ {
+				if !same(whole[k][t], seg[k][t], tol) {
+					if t >= srFrom {
+						if hit == "" {
+							hit = "storage-routing-unconverged-hotstart"
+						}
+						continue
+					}
+					if k1(desc.Outputs[k], t) {
+						if hit == "" {
+							hit = "sacramento-uh-buffer"
+						}
+						continue
+					}
+					if k7(t) {
+						if hit == "" {
+							hit = "dissolved-nutrient-prev-volume"
+						}
+						continue
+					}
+					return hit, fmt.Sprintf("%s splits %v: output %s[t=%d] = %v in the uninterrupted run, %v in the split run (diff %g, tolerance %g)",
+						name, c.Splits, desc.Outputs[k], t, whole[k][t], seg[k][t], whole[k][t]-seg[k][t], tol)
+				}
+			}
 		}
-		for t := 0; t < T; t++ {
-			if !same(whole[k][t], seg[k][t], tol) {
-				if t >= srFrom {
-					if len(r.Hit) == 0 {
-						r.Hit = append(r.Hit, "storage-routing-unconverged-hotstart")
-					}
+		scale = maxAbs(fin)
+		for j := range fin {
+			tol := 0.0
+			if name == "StorageRouting" {
+				tol = tolState
+				if j == 2 { // prevOutflow
+					tol = tolOut
+				}
+			}
+			if !same(fin[j], st[j], tol) {
+				if srFrom <= T {
 					continue
 				}
-				if k1(desc.Outputs[k], t) {
-					if len(r.Hit) == 0 {
-						r.Hit = append(r.Hit, "sacramento-uh-buffer")
-					}
-					continue
+				return hit, fmt.Sprintf("%s splits %v: final state %d = %v uninterrupted, %v split", name, c.Splits, j, fin[j], st[j])
+			}
+		}
+		return hit, ""
+	}
+	hit, fail := compare(seg, st)
+	if fail != "" && name == "Sacramento" && len(c.Splits) <= 3 {
+		// Round-off at a discontinuity.  Sacramento keeps its two lower-zone free-water stores multiplied by
+		// (1+side) inside a call and divides on return, so a value carried over a split differs from the one kept
+		// inside an uninterrupted call by up to an ulp - round-off the property allows.  The kernel then takes
+		// floor((uzfwc*adj+pav)*0.2)+1 increments per step: an ulp can change that integer, and with it the
+		// result by far more than round-off (observed: 9e-9 relative in a store of 272 mm).  Such a difference is
+		// accepted only if moving the two carried stores by at most one ulp at the split points reproduces the
+		// uninterrupted run within the ordinary tolerance; a state that is lost or altered is not repaired by that.
+		nsp := len(c.Splits)
+		combos := 1
+		for i := 0; i < nsp; i++ {
+			combos *= 9
+		}
+		for code := 0; code < combos && fail != ""; code++ {
+			seg2, st2 := runSplit(func(sp int, carried []float64) {
+				d := code
+				for i := 0; i < sp; i++ {
+					d /= 9
 				}
-				if k7(t) {
-					if len(r.Hit) == 0 {
-						r.Hit = append(r.Hit, "dissolved-nutrient-prev-volume")
+				d %= 9
+				for j, k := range []int{3, 4} {
+					switch (d / [2]int{1, 3}[j]) % 3 {
+					case 1:
+						carried[k] = math.Nextafter(carried[k], math.Inf(1))
+					case 2:
+						carried[k] = math.Nextafter(carried[k], math.Inf(-1))
 					}
-					continue
 				}
-				r.Failf("%s splits %v: output %s[t=%d] = %v in the uninterrupted run, %v in the split run (diff %g, tolerance %g)",
-					name, c.Splits, desc.Outputs[k], t, whole[k][t], seg[k][t], whole[k][t]-seg[k][t], tol)
-				return
+			})
+			if h2, f2 := compare(seg2, st2); f2 == "" {
+				hit, fail = h2, ""
+				r.Label("sacramento:round-off-at-a-discontinuity")
 			}
 		}
 	}
-	scale = maxAbs(fin)
-	for j := range fin {
-		tol := 0.0
-		if name == "StorageRouting" {
-			tol = tolState
-			if j == 2 { // prevOutflow
-				tol = tolOut
-			}
-		}
-		if !same(fin[j], st[j], tol) {
-			if srFrom <= T {
-				continue
-			}
-			r.Failf("%s splits %v: final state %d = %v uninterrupted, %v split", name, c.Splits, j, fin[j], st[j])
-			return
-		}
+	if hit != "" {
+		r.Hit = append(r.Hit, hit)
+	}
+	if fail != "" {
+		r.Failf("%s", fail)
+		return
 	}
 	if len(c.Mates) > 0 && r.Fail == "" {
 		checkBatch(c, &r, same)
